@@ -133,6 +133,14 @@ Theorem C12_v2_expand_static_closed_partial :
 Proof. exact expand_static_closed. Qed.
 Print Assumptions C12_v2_expand_static_closed_partial.
 
+(* ... and, in a source where break / continue occur only inside loops, at every statement position
+   of every nested construct (if/else, each when case, when-else, nested loops), every expanded
+   Break / Continue carries the label of its loop *)
+Theorem C12_v2_expand_loop_exits_partial :
+  forall ss, wf_list false ss = true -> loop_exits_okb (expand ss) = true.
+Proof. exact expand_loop_exits. Qed.
+Print Assumptions C12_v2_expand_loop_exits_partial.
+
 Theorem C12_v2_expand_labels_exist :
   forall ss i e l, nth_error (expand ss) i = Some e -> In l (elem_labels e) ->
                    exists k, (k < List.length (expand ss))%nat /\ nth_error (expand ss) k = Some (ELabel l).
